@@ -1059,6 +1059,12 @@ impl<W: Word, B: AsRef<[W]>> crate::traits::UncheckedIterator
         self.word_index -= 1;
         self.window = *self.vec.bits.as_ref().get_unchecked(self.word_index);
         let used = bit_width - self.fill;
+        if used == W::BITS {
+            // Full-width field on a word boundary: the value is the whole
+            // word (and the shifts by `used` below would overflow).
+            self.fill = 0;
+            return self.window;
+        }
         res = ((res << used) | (self.window >> (W::BITS - used))) & self.vec.mask;
         self.window <<= used;
         self.fill = W::BITS - used;
